@@ -124,6 +124,10 @@ def is_const(o, v=None):
 
 # ------------------------------------------------------------------------------------------------
 
+def meth_name(path):
+    return path.rsplit("::", 1)[-1]
+
+
 class Call:
     """A call terminator at block bb of a body."""
     __slots__ = ("body", "bb", "t")
@@ -209,7 +213,9 @@ class Body:
 
     def succ(self, bb):
         if self._succ is None:
-            self._raw_succ = [self._compute_succ(i) for i in range(self.n)]
+            dead = {i for i in range(self.n) if self.blocks[i]["term"] and self.blocks[i]["term"]["k"] == "unreachable"
+                    and not self.blocks[i]["stmts"]}
+            self._raw_succ = [[x for x in self._compute_succ(i) if x not in dead] for i in range(self.n)]
             self._succ = [list(x) for x in self._raw_succ]
             self._thread_jumps()
         return self._succ[bb]
@@ -231,7 +237,27 @@ class Body:
             for b in range(self.n):
                 blk = self.blocks[b]
                 t = blk["term"]
-                if not t or t["k"] != "switch" or blk["stmts"]:
+                if not t or t["k"] != "switch":
+                    continue
+                if blk["stmts"]:
+                    # constant folding: `_x = const c; switch _x` inside one block
+                    op = t["op"]
+                    if rounds == 1 and op["k"] in ("copy", "move") and not op["place"]["p"]:
+                        x = op["place"]["l"]
+                        for s in reversed(blk["stmts"]):
+                            if s["k"] == "assign" and s["lhs"]["l"] == x:
+                                if not s["lhs"]["p"] and s["rv"]["k"] == "use" and s["rv"]["op"]["k"] == "const" \
+                                        and isinstance(s["rv"]["op"].get("v"), (bool, int)):
+                                    val = int(s["rv"]["op"]["v"])
+                                    tgt = t["otherwise"]
+                                    for v, bb2 in t["targets"]:
+                                        if v == val:
+                                            tgt = bb2
+                                            break
+                                    self._succ[b] = [tgt]
+                                    self.threaded[b] = (b, val, tgt)
+                                    changed = True
+                                break
                     continue
                 op = t["op"]
                 if op["k"] not in ("copy", "move") or op["place"]["p"]:
@@ -393,57 +419,110 @@ class Body:
                     yield i, j, s
 
     # ---- definitions / slices --------------------------------------------------------------------
+    REF_FORWARD = (
+        r"std::ops::Deref::deref", r"std::ops::DerefMut::deref_mut", r"std::ops::Index::index",
+        r"std::ops::IndexMut::index_mut", r"std::option::Option::<T>::as_ref", r"std::option::Option::<T>::as_mut",
+        r"std::option::Option::<T>::unwrap", r"std::option::Option::<T>::expect", r"std::vec::Vec::<T, A>::as_slice",
+        r"std::vec::Vec::<T, A>::as_mut_slice", r"core::slice::<impl \[T\]>::get", r"core::slice::<impl \[T\]>::get_mut",
+        r"core::slice::<impl \[T\]>::first", r"core::slice::<impl \[T\]>::last", r"core::slice::<impl \[T\]>::last_mut",
+        r"std::pin::Pin::<Ptr>::new", r"std::pin::Pin::<&'a mut T>::get_mut", r"std::pin::Pin::<Ptr>::as_mut",
+        r"std::pin::Pin::<Ptr>::get_mut", r"std::convert::AsRef::as_ref", r"std::convert::AsMut::as_mut",
+        r"std::borrow::Borrow::borrow", r"std::borrow::BorrowMut::borrow_mut", r"std::option::Option::<T>::get_or_insert",
+        r"std::option::Option::<T>::get_or_insert_with", r"std::sync::Arc::<T, A>::as_ref",
+    )
+    ELEM_FORWARD = ("index", "index_mut", "get", "get_mut", "first", "last", "last_mut")
+
+    def is_ptr_local(self, l):
+        ty = self.locals[l]["ty"]
+        return "&" in ty or "*const" in ty or "*mut" in ty
+
+    @staticmethod
+    def place_path(p):
+        out = []
+        for e in p["p"]:
+            if isinstance(e, dict):
+                if "f" in e:
+                    out.append(str(e.get("n", e["f"])))
+                elif "ix" in e or "cix" in e or "sub" in e:
+                    out.append("[]")
+        return tuple(out)
+
     def defs(self):
-        """local -> list of def records.
-        record = dict(kind='assign'|'call'|'callmut'|'param', bb, idx, lhs, rv/call, srcs=[operands/places])"""
+        """local -> list of def records:
+        dict(kind='assign'|'call'|'callmut'|'param'|'setdiscr', bb, path, lhs, rv | call)."""
         if self._defs is not None:
             return self._defs
         D = defaultdict(list)
         for l in range(1, self.arg_count + 1):
-            D[l].append({"kind": "param", "param": l, "bb": -1})
+            D[l].append({"kind": "param", "param": l, "bb": -1, "path": ()})
         r = self.reachable()
-        # reference origins: local -> set of places it may point to (from `_a = &mut P` / `&P`)
         for i in sorted(r):
             for j, s in enumerate(self.blocks[i]["stmts"]):
                 if s["k"] == "assign":
-                    D[s["lhs"]["l"]].append({"kind": "assign", "bb": i, "idx": j, "lhs": s["lhs"], "rv": s["rv"], "line": s.get("line", 0)})
+                    D[s["lhs"]["l"]].append({"kind": "assign", "bb": i, "idx": j, "lhs": s["lhs"], "rv": s["rv"],
+                                             "line": s.get("line", 0), "path": self.place_path(s["lhs"]),
+                                             "deref": "*" in s["lhs"]["p"]})
                 elif s["k"] == "setdiscr":
-                    D[s["lhs"]["l"]].append({"kind": "setdiscr", "bb": i, "idx": j, "lhs": s["lhs"], "variant": s["variant"]})
+                    D[s["lhs"]["l"]].append({"kind": "setdiscr", "bb": i, "idx": j, "lhs": s["lhs"], "variant": s["variant"],
+                                             "path": self.place_path(s["lhs"]) + ("#discr",)})
             t = self.blocks[i]["term"]
             if t and t["k"] == "call":
-                D[t["dest"]["l"]].append({"kind": "call", "bb": i, "lhs": t["dest"], "call": Call(self, i, t), "line": t.get("line", 0)})
+                D[t["dest"]["l"]].append({"kind": "call", "bb": i, "lhs": t["dest"], "call": Call(self, i, t),
+                                          "line": t.get("line", 0), "path": self.place_path(t["dest"])})
         self._defs = D
-        # second pass: calls that receive `&mut` to a local (directly or via a ref local) may write it
         refs = self.ref_origins()
+        # stores through pointers: `(*_a).f = v` also defines every location _a may point to
+        for l in list(D):
+            for d in list(D[l]):
+                if d["kind"] == "assign" and d.get("deref"):
+                    for (tl, tp) in refs.get(l, ()):
+                        D[tl].append(dict(d, path=tp + d["path"], via_ref=l))
+        # calls receiving `&mut` to a location may write it
         for i in sorted(r):
             t = self.blocks[i]["term"]
             if t and t["k"] == "call":
+                c = Call(self, i, t)
+                if c.matches(*self.REF_FORWARD):
+                    continue
                 for a in t["args"]:
                     l = operand_local(a)
                     if l is None:
                         continue
                     ty = self.locals[l]["ty"]
-                    if ty.startswith("&mut") or "&mut" in ty:
-                        for tgt in refs.get(l, ()):
-                            D[tgt["l"]].append({"kind": "callmut", "bb": i, "lhs": tgt, "call": Call(self, i, t), "line": t.get("line", 0)})
+                    if "&mut" in ty or "Pin<&mut" in ty:
+                        for (tl, tp) in refs.get(l, ()):
+                            D[tl].append({"kind": "callmut", "bb": i, "lhs": None, "call": c,
+                                          "line": t.get("line", 0), "path": tp})
         return D
 
     def ref_origins(self):
-        """local -> list of places it may reference (transitively through copies/reborrows)."""
+        """pointer local -> list of (local, path) locations it may point to (transitively through
+        copies, reborrows and reference-forwarding calls such as deref/index/as_mut)."""
+        if getattr(self, "_refs", None) is not None:
+            return self._refs
         direct = defaultdict(list)
         for i, j, s in self.assigns():
             rv = s["rv"]
             l = s["lhs"]["l"]
-            if s["lhs"]["p"]:
+            if s["lhs"]["p"] or not self.is_ptr_local(l):
                 continue
             if rv["k"] in ("ref", "rawptr"):
                 direct[l].append(("place", rv["place"]))
-            elif rv["k"] == "use" and operand_local(rv["op"]) is not None and not rv["op"]["place"]["p"]:
-                direct[l].append(("alias", rv["op"]["place"]["l"]))
-            elif rv["k"] == "cast" and operand_local(rv["op"]) is not None and not rv["op"]["place"]["p"]:
-                direct[l].append(("alias", rv["op"]["place"]["l"]))
+            elif rv["k"] in ("use", "cast") and operand_local(rv["op"]) is not None:
+                pl = rv["op"]["place"]
+                if not pl["p"]:
+                    direct[l].append(("alias", pl["l"], ()))
+                elif "&" in self.locals[l]["ty"] or "*" in self.locals[l]["ty"]:
+                    # copying a pointer out of a place: `_5 = _1._ref__now`, `_7 = (_6 as Some).0`
+                    direct[l].append(("loadptr", pl))
             elif rv["k"] == "copyderef":
-                direct[l].append(("place", rv["place"]))
+                direct[l].append(("loadptr", rv["place"]))
+        for c in self.calls():
+            if c.matches(*self.REF_FORWARD) and c.args and not c.dest["p"] and self.is_ptr_local(c.dest["l"]):
+                al = operand_local(c.args[0])
+                if al is not None and not c.args[0]["place"]["p"]:
+                    extra = ("[]",) if meth_name(c.path) in self.ELEM_FORWARD or meth_name(c.generic) in self.ELEM_FORWARD else ()
+                    direct[c.dest["l"]].append(("alias", al, extra))
         out = {}
 
         def resolve(l, seen):
@@ -451,50 +530,133 @@ class Body:
                 return []
             seen = seen | {l}
             res = []
-            for kind, x in direct.get(l, ()):
-                if kind == "alias":
-                    res.extend(resolve(x, seen))
-                else:
-                    res.append(x)
-                    # reborrow `&mut (*_a).f`: also targets of _a
-                    if place_has_deref(x):
-                        for y in resolve(x["l"], seen):
-                            res.append({"l": y["l"], "p": y["p"] + [e for e in x["p"] if e != "*"], "ty": x.get("ty", "")})
-            return res
+            for ent in direct.get(l, ()):
+                if ent[0] == "alias":
+                    tg = resolve(ent[1], seen)
+                    if tg:
+                        res.extend((tl, tp + ent[2]) for tl, tp in tg)
+                    else:
+                        # alias of a non-pointer local (e.g. by-value deref target): the local itself
+                        res.append((ent[1], ent[2]))
+                elif ent[0] == "place":
+                    pl = ent[1]
+                    path = self.place_path(pl)
+                    if "*" in pl["p"]:
+                        tg = resolve(pl["l"], seen)
+                        if tg:
+                            res.extend((tl, tp + path) for tl, tp in tg)
+                        else:
+                            res.append((pl["l"], path))
+                    else:
+                        res.append((pl["l"], path))
+                elif ent[0] == "loadptr":
+                    # pointer stored inside a place: find what was stored there (aggregate fields / params)
+                    pl = ent[1]
+                    path = self.place_path(pl) + ("*",)
+                    tg = resolve(pl["l"], seen) if "*" in pl["p"] else []
+                    if tg:
+                        res.extend((tl, tp + path) for tl, tp in tg)
+                    else:
+                        res.append((pl["l"], path))
+            # dedupe
+            dd = []
+            for x in res:
+                if x not in dd:
+                    dd.append(x)
+            return dd
 
         for l in list(direct):
             out[l] = resolve(l, frozenset())
+        self._refs = out
         return out
 
-    def slice(self, start, through_calls=True, stop_at_calls=None, max_nodes=5000):
-        """Backward flow-insensitive data slice.
+    @staticmethod
+    def _compat(a, b):
+        n = min(len(a), len(b))
+        return a[:n] == b[:n]
+
+    @staticmethod
+    def rv_operands(rv):
+        return [rv.get("op"), rv.get("place"), rv.get("ops", []), rv.get("a"), rv.get("b")]
+
+    def slice_rv(self, bb, stmt, **kw):
+        """Slice of the right-hand side of an assignment statement located in block bb."""
+        return self.slice(self.rv_operands(stmt["rv"]), at=bb, **kw)
+
+    def slice_args(self, call, idxs=None, **kw):
+        args = call.args if idxs is None else [call.args[i] for i in idxs]
+        return self.slice(list(args), at=call.bb, **kw)
+
+    def slice_switch(self, sb, **kw):
+        return self.slice(self.term(sb)["op"], at=sb, **kw)
+
+    def reach_after(self, bb):
+        """Blocks reachable strictly after leaving bb."""
+        c = getattr(self, "_ra", None)
+        if c is None:
+            c = self._ra = {}
+        if bb not in c:
+            c[bb] = self.reach(self.succ(bb))
+        return c[bb]
+
+    def def_reaches(self, d, use_bb):
+        """Def record d may influence a use located in block use_bb (CFG reachability)."""
+        if use_bb is None:
+            return True
+        db = d.get("bb", -1)
+        if db < 0:
+            return True
+        if db == use_bb:
+            if d["kind"] in ("call", "callmut"):
+                return use_bb in self.reach_after(db)
+            return True
+        return use_bb in self.reach_after(db)
+
+    def slice(self, start, through_calls=True, stop_at_calls=None, max_nodes=20000, at=None):
+        """Backward, flow-insensitive, field-sensitive data slice.
         start: operand | place | local index | list of those.
-        Returns Slice with atoms:
-          ('param', i), ('const', v), ('call', path, bb), ('field', adt, name), ('fn', path),
-          ('agg', adt, variant), ('binop', op), ('discr',), ('upvar', name)
-        """
+        Atoms: ('param', i), ('const', v), ('call', path, bb), ('field', adt, name), ('fn', path),
+               ('agg', adt, variant), ('binop', op), ('unop', op), ('discr',), ('upvar', name), ('closure', def)"""
         D = self.defs()
+        refs = self.ref_origins()
         sl = Slice(self)
         work = []
 
-        def add_place(p):
+        cur_at = [at]
+
+        def add_loc(l, path):
+            work.append((l, tuple(path), cur_at[0]))
+
+        def add_place(p, extra=(), discr=False):
             for (adt, v, n) in place_fields(p):
                 sl.atoms.add(("field", adt, n))
                 if adt == "closure":
                     sl.atoms.add(("upvar", n))
             for e in p["p"]:
                 if isinstance(e, dict) and "ix" in e:
-                    work.append(e["ix"])
-            work.append(p["l"])
+                    add_loc(e["ix"], ())
+            path = self.place_path(p) + tuple(extra)
+            if discr:
+                path = path + ("#discr",)
+            if "*" in p["p"]:
+                # reading through a pointer: convention (pointer local, path) = pointee contents at
+                # path; plus every known location the pointer may point to
+                add_loc(p["l"], path)
+                for (tl, tp) in refs.get(p["l"], ()):
+                    add_loc(tl, tp + path)
+            else:
+                add_loc(p["l"], path)
 
-        def add_op(o):
+        def add_op(o, extra=()):
             if o is None:
                 return
             if o["k"] in ("copy", "move"):
-                add_place(o["place"])
+                add_place(o["place"], extra)
             elif o["k"] == "const":
                 if "fn" in o:
                     sl.atoms.add(("fn", o["fn"]))
+                elif "closure" in o:
+                    sl.atoms.add(("closure", o["closure"]))
                 elif "v" in o:
                     sl.atoms.add(("const", o["v"] if not isinstance(o["v"], (list, dict)) else str(o["v"])))
                 else:
@@ -502,8 +664,8 @@ class Body:
 
         def add_any(x):
             if isinstance(x, int):
-                work.append(x)
-            elif isinstance(x, list):
+                add_loc(x, ())
+            elif isinstance(x, (list, tuple)):
                 for y in x:
                     add_any(y)
             elif isinstance(x, dict):
@@ -513,29 +675,43 @@ class Body:
                     add_place(x)
 
         add_any(start)
-        while work and len(sl.locals) < max_nodes:
-            l = work.pop()
-            if l in sl.locals:
+        n = 0
+        while work and n < max_nodes:
+            l, rp, ub = work.pop()
+            if (l, rp, ub) in sl.visited:
                 continue
+            sl.visited.add((l, rp, ub))
             sl.locals.add(l)
+            n += 1
             for d in D.get(l, ()):
+                lp = d["path"]
+                if not self._compat(lp, rp):
+                    continue
+                if not self.def_reaches(d, ub):
+                    continue
+                cur_at[0] = d.get("bb", -1) if d.get("bb", -1) >= 0 else None
+                rem = rp[len(lp):] if len(rp) >= len(lp) else ()
                 k = d["kind"]
                 if k == "param":
                     sl.atoms.add(("param", d["param"]))
+                    sl.param_paths.add((d["param"], rp))
                 elif k == "assign":
                     rv = d["rv"]
                     rk = rv["k"]
                     sl.defs.append(d)
-                    if rk in ("use", "cast", "un", "repeat"):
+                    if rk in ("use", "cast"):
+                        add_op(rv["op"], rem)
+                        if rk == "cast":
+                            sl.atoms.add(("cast", rv["ty"]))
+                    elif rk in ("un", "repeat"):
                         add_op(rv.get("op") or rv.get("a"))
                         if rk == "un":
                             sl.atoms.add(("unop", rv["op"]))
-                        if rk == "cast":
-                            sl.atoms.add(("cast", rv["ty"]))
-                    elif rk in ("ref", "rawptr", "copyderef", "discr"):
-                        add_place(rv["place"])
-                        if rk == "discr":
-                            sl.atoms.add(("discr",))
+                    elif rk in ("ref", "rawptr", "copyderef"):
+                        add_place(rv["place"], rem)
+                    elif rk == "discr":
+                        add_place(rv["place"], (), discr=True)
+                        sl.atoms.add(("discr",))
                     elif rk == "bin":
                         sl.atoms.add(("binop", rv["op"]))
                         add_op(rv["a"])
@@ -545,12 +721,21 @@ class Body:
                             sl.atoms.add(("agg", rv["adt"], rv["variant"]))
                         elif rv["ak"] == "closure":
                             sl.atoms.add(("closure", rv["def"]))
-                        for o in rv["ops"]:
-                            add_op(o)
+                        names = rv.get("fields")
+                        if rv["ak"] == "tuple":
+                            names = [str(i) for i in range(len(rv["ops"]))]
+                        if rem and names and rem[0] in names and rem[0] != "#discr":
+                            add_op(rv["ops"][names.index(rem[0])], rem[1:])
+                        elif rem and rem[0] == "#discr":
+                            pass
+                        else:
+                            for o in rv["ops"]:
+                                add_op(o)
                 elif k in ("call", "callmut"):
                     c = d["call"]
                     sl.atoms.add(("call", c.path, c.bb))
-                    sl.calls.append(c)
+                    if c not in sl.calls:
+                        sl.calls.append(c)
                     stop = stop_at_calls and c.matches(*stop_at_calls)
                     if through_calls and not stop:
                         for a in c.args:
@@ -607,6 +792,8 @@ class Slice:
     def __init__(self, body):
         self.body = body
         self.locals = set()
+        self.visited = set()
+        self.param_paths = set()
         self.atoms = set()
         self.calls = []
         self.defs = []
@@ -718,7 +905,7 @@ class Crate:
         cc = c.get("calls_closure")
         if cc and cc in self.bodies and cc not in out:
             out.append(cc)
-        if c.get("rk") in ("unresolved", "virtual") or (p not in self.bodies and c.get("trait")):
+        if c.get("rk") in ("unresolved", "virtual"):
             g = c.get("generic", p)
             tr = c.get("trait")
             if tr:
